@@ -206,7 +206,7 @@ def make_model(kind='k2', pool=0, boot=0, model_name=None, params=None, table=No
         free = [names[0], names[1]]
         fixed = ['A_FIXED_' + names[2]]
     elif kind == 'k2b':
-        asc, b1 = Beta(names[0], 0, -0.0625, 0.0625, 0), Beta(names[1], 0, None, None, 0)
+        asc, b1 = Beta(names[0], 0, -0.0009765625, 0.0009765625, 0), Beta(names[1], 0, None, None, 0)
         v = {1: asc + b1 * x1, 2: b1 * x2}
         free = [names[0], names[1]]
     else:
@@ -744,7 +744,7 @@ def parse_latex_parameters(latex):
     for line in m.group(1).split('\n'):
         line = line.strip()
         if line.endswith('\\\\') and '&' in line:
-            cells = [c.strip() for c in line[:-2].split(' & ')]
+            cells = [c.strip() for c in line[:-2].split('&')]
             rows.append(cells)
     return rows
 
@@ -921,7 +921,9 @@ def _part_n(task, rec):
     name, ext = task['name'], task['ext']
     cands = [f'{name}.{ext}'] + [f'{name}~{i:02d}.{ext}' for i in range(3)]
     first = True
-    for assign in itertools.product(kinds, repeat=len(cands)):
+    assigns = sorted(itertools.product(kinds, repeat=len(cands)),
+                     key=lambda a: (sum(x != 'absent' for x in a), [kinds.index(x) for x in a]))
+    for assign in assigns:
         d = fresh_dir('n')
         try:
             for c, a in zip(cands, assign):
@@ -943,7 +945,7 @@ def _part_n(task, rec):
             rec.case(('n', name, ext, assign) if nontrivial else None, ('n', assign, got), outcome=(got == want, got in before))
             pat = ','.join(sorted(set(a for a in assign if a != 'absent'))) or 'empty'
             if got in before:
-                rec.violation(f'C14|new-file-name-exists|entry-kinds={pat}',
+                rec.violation(f'C14|new-file-name-exists|entry-kind={before[got][0]}',
                               f'get_new_file_name({name!r}, {ext!r}) returned {got!r}, which exists as a '
                               f'{before[got][0]} (directory: {dict(zip(cands, assign))})', case, expected=want, observed=got)
             elif got != want:
@@ -1051,6 +1053,10 @@ def populate(root):
                 os.mkdir(f'{b}.{e}')
                 with open(os.path.join(f'{b}.{e}', 'inside.txt'), 'w') as f:
                     f.write('keep me\n')
+    # pre-existing entries are old: one hour, in the order of creation
+    for i, fn in enumerate(sorted(os.listdir('.'), key=lambda x: (order.index(x) if x in order else -1, x))):
+        if not os.path.islink(fn):
+            os.utime(fn, (1.7e9 + i, 1.7e9 + i))
     return order
 
 
@@ -1113,7 +1119,7 @@ class History:
             if 'biogeme.toml' not in ex:
                 new.append('biogeme.toml')
                 ex.add('biogeme.toml')
-            for k in (1, 2):
+            for k in (1,):
                 nn(f'{m}_val_est_{k}', 'html')
                 nn(f'{m}_val_est_{k}', 'pickle')
             nn(f'{m}_validation', 'pickle')
@@ -1164,9 +1170,9 @@ class History:
         if op == 'validate':
             import pandas as pd
             df = b.database.data
-            half = len(df) // 2
-            a, c = df.iloc[:half], df.iloc[half:]
-            vd = [db.EstimationValidation(estimation=c, validation=a), db.EstimationValidation(estimation=a, validation=c)]
+            cut = 3
+            a, c = df.iloc[:cut], df.iloc[cut:]
+            vd = [db.EstimationValidation(estimation=c, validation=a)]
             b.generate_pickle = True
             try:
                 out = b.validate(self.r, vd)
@@ -1343,6 +1349,16 @@ def bfs_depth(tier):
     return 3 if tier == 'quick' else 4
 
 
+HEAVY = ('validate',)
+
+
+def heavy_rule(tier, hist):
+    """(may the heavy operation be appended?, may a state containing it be expanded?) - a bound on where
+    validate() (two nested BIOGEME objects, ~0.25 s) may occur, stated in the evidence counters."""
+    last = 1 if tier == 'quick' else 2
+    return len(hist) <= last, len(hist) + 1 <= last
+
+
 def bfs_roots(tier, seed):
     return [dict(root=r, tier=tier) for r in ROOTS]
 
@@ -1353,7 +1369,12 @@ def bfs_expand(task):
     ops = ops_for(task['root']['tier'])
     hist = list(task['history'])
     succ = []
+    tier = task['root']['tier']
+    may_append, may_expand = heavy_rule(tier, hist)
     for op in ops:
+        if op in HEAVY and not may_append:
+            rec.count('heavy_op_not_appended_beyond_its_bound')
+            continue
         hh = hist + [op]
         h, i, bad = run_history(root, hh)
         try:
@@ -1371,8 +1392,10 @@ def bfs_expand(task):
             if h.skipped:
                 rec.count(h.skipped)
             c = h.canon()
-            rec.state((root, c))
-            succ.append(dict(event=op, canon=c))
+            expand = not any(o in HEAVY for o in hh) or may_expand
+            if not expand:
+                rec.count('states_with_heavy_op_not_expanded_beyond_its_bound')
+            succ.append(dict(event=op, canon=c, expand=expand))
         finally:
             h.close()
     if not hist:
